@@ -50,6 +50,9 @@ def run(tier):
              ("Sampling", lambda: discdrv.check_sampling(data["samp"]), len(data["samp"])),
              ("DeadBandRT", lambda: discdrv.check_deadband_rt(data["rt"]), len(data["rt"])),
              ("RateLimiter/AntiWindupRate", lambda: discdrv.check_ratelimiter(data["rl"], data["awr"]), len(data["rl"]) + len(data["awr"])),
+             ("Delay/Average time mode", lambda: discdrv.check_timemode(data["timemode"]), len(data["timemode"])),
+             ("Delay/Average time mode, rewound stamp", lambda: [dict(b, cls=b["cls"] + ".time_mode_rewound_stamp") for b in discdrv.check_timemode(data["timemode_rewind"])],
+              len(data["timemode_rewind"])),
              ("iteration gating", lambda: discdrv.check_gate(data["gate"]), len(data["gate"])),
              ("limit adjustment at initialisation", lambda: discdrv.check_adjust(data["adj"], data["awadj"]), 2 * len(data["adj"]) + len(data["awadj"])),
              ("AntiWindup iteration lock", lambda: discdrv.check_aw_lock(data["awlock"]), len(data["awlock"])),
@@ -99,7 +102,7 @@ def run(tier):
                 "the bounds); simulations with active limiters; non-trivial = a history with a repeated or rewound stamp, a lattice point")
     rep.assume("ordered limits (lower < upper) are the precondition of the one-hot clause; lower = upper = input with inclusive comparison "
                "sets both flags (degenerate pair, documented in DESIGN.md)")
-    rep.assume("ShuntAdjust and time-mode Delay are exercised only through simulations; SortedLimiter with relative violations (abs_violation = 0) is not covered")
+    rep.assume("ShuntAdjust is exercised only through simulations; SortedLimiter with relative violations (abs_violation = 0) is not covered")
     return rep.finish()
 
 
